@@ -112,6 +112,8 @@ def cc_harness(v, name, sources, enc=True, dec=False, extra_cflags="", extra_ldf
     are compiled with plain gcc/clang -O2 and no sanitizer.  Rebuilds when any input is newer.
     """
     cc, _, cflags, ldf = VARIANTS[v]
+    if enc or dec:
+        ensure_build(v)
     d = os.path.join(variant_dir(v), "h")
     os.makedirs(d, exist_ok=True)
     out = os.path.join(d, name)
